@@ -211,7 +211,10 @@ class HistGen:
         r = self.r
         if not self.opts.get("faults", False) or not r.chance(self.opts.get("fault_rate", 0.12)):
             return "-"
-        k = r.weighted([("f", 4), ("s", 3), ("S", 3), ("g", 3), ("b", 2), ("u", 2)])
+        k = r.weighted([("f", 4), ("s", 3), ("S", 3), ("g", 3), ("b", 2), ("u", 2)] + ([("r", 3)] if batch_n > 1 else []))
+        if k == "r":
+            # the ruler answers for the first 1..n-1 requests only
+            return "r%d" % (1 + r.below(batch_n - 1))
         if k == "f":
             return "f%d" % r.below(batch_n)
         if k == "g":
@@ -340,6 +343,8 @@ class HistGen:
             picks = r.shuffle([a for a in self.accts if a.unlockable or r.chance(0.1)])[:n] if not r.chance(0.1) else [self.pick_acct() for _ in range(n)]
             c = self.client() if not r.chance(0.5) else "clientall"
             f = "g%d" % r.below(len(picks)) if self.opts.get("faults") and r.chance(0.08) else "-"
+            if f == "-" and len(picks) > 1 and self.opts.get("faults") and r.chance(0.04):
+                f = "r%d" % (1 + r.below(len(picks) - 1))
             return "msign %s %s %s %s" % (hx(c), ip, f, ";".join(self.addr(a, allow_both=False) + "," + sd() for a in picks))
         if kind == "restart":
             return "restart"
@@ -372,6 +377,8 @@ def compare_lines(ops, impl, model):
             fl_ = f_[5] if k in ("att", "prop", "sign") and len(f_) > 5 else (f_[3] if k in ("atts", "msign") and len(f_) > 3 else "-")
             if states_of(il) != states_of(ml):
                 bad.append((i, op, il, ml))
+        elif k == "rbatch":
+            continue          # judged by the caller's expectation (the model does not carry 10^5 synthetic keys)
         else:
             if il.strip() != ml.strip():
                 bad.append((i, op, il, ml))
